@@ -107,7 +107,9 @@ func (k msgServer) ProcessUndPurchaseOrder(goCtx context.Context, msg *types.Msg
 
 	currentDecisions := purchaseOrder.Decisions
 	for _, d := range currentDecisions {
-		if msg.Signer == d.Signer {
+		// compare addresses, not spellings: bech32 also accepts the all upper-case form of an address
+		dSigner, dErr := sdk.AccAddressFromBech32(d.Signer)
+		if msg.Signer == d.Signer || (dErr == nil && signer.Equals(dSigner)) {
 			return nil, sdkerrors.Wrapf(types.ErrSignerAlreadyMadeDecision, "signer %s already decided: %s", msg.Signer, d.Decision.String())
 		}
 	}
